@@ -27,3 +27,5 @@ type (
 type ERRFLOW = core.ERRFLOW
 
 type NOREACH = core.NOREACH
+
+type TABLE = core.TABLE
